@@ -5,7 +5,7 @@ open Preflate
 
 theorem scanAt_ok {o : Oracle} (hnp : NoPanic o) (crc : Bytes → Nat) (src : Bytes) (i prev : Nat) (sg : Sig) :
     ∃ x, scanAt o crc src i prev sg = .ok x := by
-  have hv : ∀ d, NP (o.verified d) := fun d m => hnp d m
+  have hv : ∀ d, SNP (o.verified d) := fun d m => hnp d m
   cases sg with
   | zlib =>
     obtain ⟨y, hy⟩ := probe_ok (hv (src.drop (i + 2)))
